@@ -22,7 +22,7 @@ EXPLANATION = (
     "C13-R6 checks the index arithmetic of starred destructuring as linear forms; C13-R7 that a "
     "walrus on a user name is only built inside the namespace classes; C13-R8 the in-place method "
     "is tried first on every path; C09-R1 instance: pattern/value temporaries are fresh per use."
-    ' C13-R6 also: no part of the right-hand side is evaluated in a repetition that stores a target. C13-R9: destructuring checks the number of values, and the bound of an emitted check is == len(targets) or >= len(targets) - 1 with a star. C13-R10: NotImplemented from the in-place method falls back.'
+    ' C13-R6 also: no part of the right-hand side is evaluated in a repetition that stores a target. C13-R9: destructuring checks the number of values, and the bound of an emitted check is == len(targets) or >= len(targets) - 1 with a star. C13-R10: NotImplemented from the in-place method falls back. Shared: C06-R5 (the read of a class-level target falls back lazily to the plain name).'
 )
 ASSUMPTIONS = [
     "numeric results and CPython's type-slot lookup versus hasattr are run-time behaviour (not decided)",
@@ -592,4 +592,13 @@ def rule_c07(ctx):
     return rr
 
 
-RULES = [("C07-R1", rule_c07), ("C13-R1", rule_r1), ("C13-R2", rule_r2), ("C13-R3", rule_r3), ("C13-R4", rule_r4), ("C13-R5", rule_r5), ("C13-R6", rule_r6), ("C13-R7", rule_r7), ("C13-R8", rule_r8), ("C13-R9", rule_r9), ("C13-R10", rule_r10), ("C09-R1", rule_temporaries)]
+def rule_c06r5(ctx):
+    """An augmented assignment in a class body reads its target through the class namespace: how that
+    read falls back to the plain name decides whether `x += v` in a class sees the value Python sees
+    (shared rule C06-R5; the property quantifies over class placement)."""
+    from .c06 import rule_r5 as r
+
+    return r(ctx)
+
+
+RULES = [("C06-R5", rule_c06r5), ("C07-R1", rule_c07), ("C13-R1", rule_r1), ("C13-R2", rule_r2), ("C13-R3", rule_r3), ("C13-R4", rule_r4), ("C13-R5", rule_r5), ("C13-R6", rule_r6), ("C13-R7", rule_r7), ("C13-R8", rule_r8), ("C13-R9", rule_r9), ("C13-R10", rule_r10), ("C09-R1", rule_temporaries)]
